@@ -55,6 +55,7 @@ func init() {
 		"fmt.Fprintf":                      icNop,
 		"errors.Is":                        icErrorsIs,
 		"time.Now":                         icZero,
+		"github.com/klauspost/compress/gzhttp.Transport": icZero,
 		"time.Since":                       icConstInt(1),
 		"time.Sleep":                       icNop,
 		"(*sync.Mutex).Lock":               icMutexLock,
